@@ -7,13 +7,13 @@ props = [json.loads(l) for l in open(os.path.join(VERIF, 'properties.jsonl'))]
 
 DET = "deterministic engine: the real core under manual scheduling, driven through the real RMProxy by a shim simulator; settle barrier and full snapshot after every step; oracle = pure function of (pre snapshot, operation, SI events, post snapshot)"
 CHECKS = {
- "C01": dict(design="4/C01", technique="runtime monitor: per-step pre/post snapshot oracle + predicate log + node ledger check on seeded SI histories (thorough adds concurrent runs with an in-lock probe under -race)",
+ "C01": dict(design="4/C01", technique="runtime monitor: per-step pre/post snapshot oracle + predicate log + node ledger check on seeded SI histories ; every 100th case is a concurrent run on one hot node judged by a probe under the node lock (check-then-add window)",
              text="Exploration. Every scheduler-decided binding of thousands of seeded SI histories (tiny nodes, predicate denials, reservations, required nodes, gang swaps, drains, foreign allocations) is checked against the pre-step node view, and the node ledger is checked after every step. Held on the executions listed in the evidence; nothing is claimed about histories not generated."),
  "C02": dict(design="4/C02", technique="runtime monitor: per-step pre/post queue usage oracle on seeded SI histories over generated queue hierarchies",
              text="Exploration. Every scheduler-decided allocation is checked against the pre-step usage and maximum of every queue on its path (root = sum of node capacities); no non-forced step may increase a usage component that ends above its maximum; child effective maximum never looser than the parent's."),
  "C03": dict(design="4/C03", technique="runtime monitor: conservation equalities over full snapshots after every step + closing phase (everything released/removed must return to zero)",
              text="Exploration. The conservation equalities (application, leaf, parent, root vs nodes, node vs application listings, no negatives) are evaluated after every step of seeded histories that emphasise node removal during swaps, application removal, duplicate/late/lost confirmations; each case ends with a closing phase that must return every total to zero."),
- "C04": dict(design="4/C04", technique="runtime monitor: online protocol automaton over the totally ordered SI trace recorded at the shim boundary",
+ "C04": dict(design="4/C04", technique="runtime monitor: online protocol automaton over the totally ordered SI trace recorded at the shim boundary; every 100th case is a concurrent run whose trace is judged by the order-insensitive subset of the rules",
              text="Exploration. A per-key/per-application/per-node automaton driven only by the SI traffic (what a shim can know) judges every New/Released/Accepted/Rejected message of seeded histories with late, duplicate and dropped confirmations."),
  "C05": dict(design="4/C05", technique="runtime monitor: enforcement check per allocation against the tracker's own limits + usage equality after every step, with configuration reloads in the histories",
              text="Exploration. Every scheduler-decided allocation is checked against the user's and resolved group's limits on every queue of the path (resources and max applications); tracked usage is compared with the live allocations after every step; histories include reloads that add/change/drop limits."),
@@ -33,7 +33,7 @@ CHECKS.update({
              text="Exploration. Millions of evaluations of Add/Sub/AddTo/SubFrom/Multiply/MultiplyBy/OnlyExisting variants/EliminateNegative, the fit and comparison predicates, component-wise min/max, equality variants and ParseQuantity/ParseVCore are compared with an exact reference; arguments are compared before/after every call; panics are violations."),
  "C19": dict(engine="pure", design="4/C19", note=PURE_NOTE, technique="runtime monitor: real sortQueues/sortApplications (via verif hook) called repeatedly on the same world (Go map order permutes candidates) and judged pairwise against the policy's keys; ask list and node iterator checked against their keys after random scripts",
              text="Exploration. Queue, application, ask and node worlds are built with the real constructors from seeded keys with many ties and near-ties; every pair the policy distinguishes must appear in that order in every call; node iteration must visit every registered node once, skip exactly the reserved ones in the unreserved view and be ordered by the score of the current utilisation."),
- "C20": dict(engine="pure", design="4/C20", note=PURE_NOTE, technique="reference-model monitor: real ring buffer / event store / event streaming vs a list-based model by pointer identity; exhaustive enumeration of the small sub-space; concurrent stream runs (thorough: under -race)",
+ "C20": dict(engine="pure", design="4/C20", note=PURE_NOTE, technique="reference-model monitor: real ring buffer / event store / event streaming vs a list-based model by pointer identity; exhaustive enumeration of the small sub-space; concurrent stream runs with subscribers created and removed while events are published (thorough: under -race)",
              text="Exploration plus an exhaustively enumerated sub-space (reported in the evidence). Seeded add/resize/query scripts on the real ring buffer are compared with a list model (ids, ranges, bounds, recent events), event-store batches with the size in force, and subscribers of concurrent stream runs must receive a gap-free, repeat-free run of ids that ends with the last event."),
 })
 
@@ -52,7 +52,7 @@ CHECKS["C12"] = dict(engine="det", design="4/C12", technique="crash-point monito
 CHECKS["C13"] = dict(engine="det", design="4/C13", technique="hostile-input monitor: generated SI messages injected into reachable states in child processes; every message logged before sending; oracle = process alive + barrier returns + matching rejection + ledger snapshot unchanged + conservation",
     note="Trusted: the harness; the generator's knowledge of which items are invalid by the protocol's own rules. No nil list elements / nil map values (excluded by the property).",
     text="Exploration of inputs x states. 24 classes of hostile or malformed SI messages are injected after seeded legal prefixes; a dead worker is a violation whose witness is the last logged message, a barrier that does not return within 30 s is a hang, invalid items must be answered with the matching rejection and leave the ledger snapshot identical, every message must leave the accounting consistent.")
-CHECKS["C14"] = dict(engine="conc", design="4/C14", technique="Go race detector (-race) + go-deadlock lock-order/timeout detection + seeded lock-acquire yields over a concurrent workload; bounded-progress (quiescence + double goroutine dump); quiescent-state oracles on the final snapshot",
+CHECKS["C14"] = dict(engine="conc", design="4/C14", technique="Go race detector (-race) + go-deadlock lock-order/timeout detection + seeded lock-acquire yields over a concurrent workload (clients, confirmer, reloader, node updater, REST readers; gang applications in half of the runs); bounded-progress (quiescence + double goroutine dump); quiescent-state oracles on the final snapshot",
     note="Trusted: Go race detector, go-deadlock, the harness. Only interleavings that were executed are judged. Final-state violations in runs with node removal / application removal / reload / RM-bound allocations match known findings (races in the core, see known_findings.json); the calm class (asks, releases, capacity changes, drains, foreign allocations, confirmations, REST readers) has no known finding except the reservation three-view race.",
     text="Exploration of schedules. Each case is a 5-7 s run of the real core with its scheduling loop, handlers, quota preemption loop, 50 ms health checker and timers under -race and go-deadlock, hammered by 3-6 clients, a confirmer, a reloader, a node updater and 3 REST readers, with seeded yields at every lock acquisition and GOMAXPROCS 2-16. Reports: data races (de-duplicated by innermost core frame pair), lock-order inversions / potential deadlocks, blocked goroutines after the input stops, final-state invariant violations.")
 
